@@ -82,8 +82,8 @@ Fixpoint dt_export (d : dtype) (v : pyval) {struct d} : res pyval :=
       | Some items => mapd_res dt_export elems items >>= fun ys => Ok (PList ys)
       end
   | TStruct members optional client =>
-      (* check_type(value) without allow_optional: on the node every member is required *)
-      struct_check (map fst members) optional client false v >>= fun _ =>
+      (* check_type(value, True): a valid value may lack optional members (45926fd) *)
+      struct_check (map fst members) optional client true v >>= fun _ =>
       if negb (is_dict v) then Err EAttr
       else struct_fold dt_export false members (dict_items v) [] >>= fun kv => Ok (PDict kv)
   end.
@@ -164,10 +164,6 @@ Fixpoint client_of (d : dtype) {struct d} : res dtype :=
       py_int_mul_float k1 scale >>= finite_or >>= fun a =>
       py_int_mul_float k2 scale >>= finite_or >>= fun b => Ok (TScaled scale a b)
   | TEnum ms => Ok (TEnum (sort_by_value ms))
-  | TString minc maxc u =>
-      (* maxchars is not exported when it is the default; the 'string' row then passes maxchars=None and the
-         constructor takes "minchars or UNLIMITED" *)
-      Ok (TString minc (if (maxc =? UNLIMITED)%Z then (if (minc =? 0)%Z then UNLIMITED else minc) else maxc) u)
   | TArray elem a b => client_of elem >>= fun e => Ok (TArray e a b)
   | TTuple elems =>
       (fix go (ds : list dtype) : res (list dtype) :=
@@ -215,11 +211,12 @@ Fixpoint dtype_eqb (a b : dtype) {struct a} : bool :=
 
 (* ------------------------------------------------------------------ text forms *)
 (* a text in Python literal syntax, as format_value(unit=False) composes it:
-   atoms, [a, b], (a, b) and {k: a, l: b}; the text itself is [render] of the tree *)
+   atoms, [a, b], (a, b), (a,) and {k: a, l: b}; the text itself is [render] of the tree *)
 Inductive ptree :=
 | PA (s : str)
 | PL (l : list ptree)
 | PP (l : list ptree)
+| PT1 (t : ptree)                      (* (x,) : the python syntax of a tuple with one element *)
 | PB (l : list (str * ptree)).
 
 Fixpoint join (sep : str) (l : list str) : str :=
@@ -237,6 +234,7 @@ Fixpoint render (t : ptree) : str :=
   | PA s => s
   | PL l => [91%N] ++ join comma_sp (map render l) ++ [93%N]
   | PP l => [40%N] ++ join comma_sp (map render l) ++ [41%N]
+  | PT1 t => [40%N] ++ render t ++ [44; 41]%N
   | PB l => [123%N] ++ join comma_sp (map (fun p => fst p ++ colon_sp ++ render (snd p)) l) ++ [125%N]
   end.
 
@@ -258,6 +256,7 @@ Fixpoint lit_eval (t : ptree) : option pyval :=
   | PL l => match all_some (map lit_eval l) with Some vs => Some (PList vs) | None => None end
   | PP [x] => lit_eval x
   | PP l => match all_some (map lit_eval l) with Some vs => Some (PTuple vs) | None => None end
+  | PT1 x => match lit_eval x with Some v => Some (PTuple [v]) | None => None end
   | PB l =>
       (fix go (l : list (str * ptree)) (acc : list (str * pyval)) : option pyval :=
          match l with
@@ -301,7 +300,7 @@ Fixpoint to_tree (d : dtype) (v : pyval) {struct d} : res ptree :=
              match ds, l with
              | d1 :: ds', x :: r => to_tree d1 x >>= fun y => go ds' r >>= fun ys => Ok (y :: ys)
              | _, _ => Ok []
-             end) elems items >>= fun ts => Ok (PP ts)
+             end) elems items >>= fun ts => Ok (match ts with [t] => PT1 t | _ => PP ts end)
       end
   | TStruct members _ _ =>
       if negb (is_dict v) then Err EAttr
